@@ -126,6 +126,88 @@ claim("C07", "model_checking",
       "not parse are C01's business and are skipped (counted). Known defects of the pinned tree are listed per document in known/C07.tsv.",
       "TLA+ Report spec + batched trace validation of every scan's printed failures")
 
+DOCS_NOTE = ("Document spaces are fixed (TLC enumerations, fixed generated / systematic pools, repository files); VERIF_SEED selects the quick "
+             "tier's subset, which is always a subset of the thorough tier's space. Defects of the pinned tree are listed per input in known/%s.tsv "
+             "(harvested from a complete thorough run, never written at run time). Trusted: TLC; the harness's projections (vh.psweep, vh.canon).")
+
+claim("C01", "model_checking",
+      "spec/ParserLoop.tla models the implementation's main loop (source, requeue, closing step, the once-per-line repeat) with the variant "
+      "that makes it terminate; TLC checks Termination under fairness; the pstep probe events of real parses are validated against it "
+      "(Trace_ParserLoop), so every recorded parse follows the terminating model. Every document TLC enumerates from spec/MdBlocks.tla "
+      "(2 lines exhaustively, 3 lines per abstract transition with VIEW), every document of <=3/4 lines over two link-definition alphabets, "
+      "every string over four inline alphabets, and the fixed pools are parsed with a CPU-time watchdog (with and without final newline): "
+      "an exception or watchdog hit is a violation keyed by exception type, innermost function and document shape. Work = Python "
+      "function entries (deterministic): pumped families unit^k (every line shape, inline delimiters) must have log-log slope < 3 and stay "
+      "under a quadratic bound.", DOCS_NOTE % "C01",
+      "TLA+ ParserLoop spec (termination) + trace validation of the real loop + exhaustive sweep of TLC-enumerated documents + work bound")
+
+claim("C02", "model_checking",
+      "Identity oracle TransformToMarkdown(tokens(d)) = d on every document TLC enumerates from spec/MdBlocks.tla AND each of its line "
+      "prefixes, with and without final newline, text concretised to ASCII and to the implementation's in-band characters (\\a \\b \\x02 "
+      "\\x03 \\x05 U+8268 U+8269 U+00FE) and other non-ASCII letters; inline and link-definition alphabets; fixed pools. The specification "
+      "supplies the space (every parser state x line shape transition) and the localisation (first differing line's shape); the verdict "
+      "itself is an equality of two observations of the implementation.", DOCS_NOTE % "C02",
+      "TLC-enumerated document space (MdBlocks) + round-trip identity")
+
+claim("C03", "model_checking",
+      "spec/MdBlocks.tla is the CommonMark block algorithm as a TLA+ state machine and spec/MdInline.tla the emphasis algorithm; TLC "
+      "enumerates every document over the line alphabets (2 lines exhaustive; 3 lines per (abstract state, line shape) transition with "
+      "VIEW) with the model's block tree, and every line over {a, space, *, _} up to 7/8 characters with the model's HTML. The real parser's "
+      "HTML is parsed back into the same canonical tree and compared. A disagreement is a violation only if corroborated: the vendored "
+      "markdown-it-py must give the model's result; otherwise the document is in the contested region (counted; > 5 % is a machinery failure).",
+      DOCS_NOTE % "C03", "TLA+ reference models (MdBlocks, MdInline) enumerated by TLC, replayed into parser + HTML generator, corroborated by markdown-it")
+
+claim("C04", "model_checking",
+      "spec/MdTokens.tla is the token-stream discipline as a push-down automaton (Open/Close/Atom/End with class table, innermost-first "
+      "closing, end token refers to its start token, li directly in its list, empty at end); MC_MdTokens checks the guards keep the stack "
+      "well nested. Every token stream of every document of the C01 spaces that parses is validated by TLC (Trace_MdTokens, batched).",
+      DOCS_NOTE % "C04", "TLA+ MdTokens automaton + batched trace validation of real token streams")
+
+claim("C05", "model_checking",
+      "spec/MdPos.tla: a positioned token is true iff its line exists, its column lies in the line and the character there (raw or "
+      "tab-expanded reading) is an opener of its kind (or the region fact of BLANK / indented code / HTML block / paragraph holds); block "
+      "tokens come in non-decreasing line order. Evaluated by TLC in Trace_MdTokens for every positioned token of every document of the "
+      "C01 spaces that parses; C11 adds the shift-by-one-line relation under pragma insertion.", DOCS_NOTE % "C05",
+      "TLA+ MdPos predicate evaluated by TLC on every recorded token position")
+
+claim("C06", "model_checking",
+      "spec/Rules.tla transcribes the documented trigger condition of 13 rules (MD001 MD009 MD010 MD012 MD013 MD019 MD023 MD025 MD035 "
+      "MD040 MD046 MD047 MD048) as operators returning must/may line sets (documentation-undecided cases are named in the module), over "
+      "line and block facts computed WITHOUT the implementation (text + markdown-it source maps). TLC (Trace_Rules) evaluates each "
+      "(document, rule, configuration) and compares with the lines the implementation reported; configurations are the documented values "
+      "of each rule's items; default-configuration verdicts of the style-memory rules are also taken after other documents were "
+      "processed. Judged only where the implementation's rendered tree equals markdown-it's (precondition C03).",
+      DOCS_NOTE % "C06" + " The other 11 rules the property names are not judged (no transcription yet).",
+      "TLA+ Rules spec (documented conditions) evaluated by TLC against the implementation's reports")
+
+claim("C08", "model_checking",
+      "spec/FixNorm.tla states what fix mode may change, as a relation on block sequences (heading level, list start, code block style, "
+      "merged neighbouring lists; nothing else); MC_FixNorm checks it is an equivalence that allows a level change and forbids a text "
+      "change. The block sequences of a document and of its fixed version come from an independent renderer (markdown-it) with the "
+      "text-level normalisation of the fixing rules applied; TLC (Trace_FixNorm) decides Equivalent for every (document, configuration): "
+      "default set, default + third-party fix-capable plugins of levels 0/1/5, each fix-capable rule alone.", DOCS_NOTE % "C08",
+      "TLA+ FixNorm relation decided by TLC on independent renderings of d and fix(d)")
+
+claim("C11", "model_checking",
+      "spec/Pragma.tla defines ExpectedMulti(F, pragmas): the failures of the document with pragma lines inserted, from the failures F of "
+      "the original (shift below each insertion point, remove exactly the named rules on the covered lines, malformed pragmas remove "
+      "nothing and are reported). MC_Pragma checks the relation's own properties for all small instances. For real documents x insertion "
+      "points (between any two lines) x pragma forms (both prefixes, id / alias / upper case / two ids / rule that does not fire, N in "
+      "1..3, nine malformed forms, two overlapping pragmas) TLC (Trace_Pragma) evaluates the relation against the observed failures and "
+      "pragma errors; the parser side (token positions shifted, same HTML) and fix mode (pragma lines stay in front of their line) are "
+      "compared by the harness.", DOCS_NOTE % "C11", "TLA+ Pragma relation evaluated by TLC on real insertions")
+
+claim("C20", "model_checking",
+      "spec/Ext.tla: Parse(S, d) = Parse(S cap Trig(d), d). Each document is parsed under subsets S of the six extensions (all 64 for the "
+      "trigger families and in thorough), every observation is keyed by the effective set and TLC (Trace_Obs) accepts iff observations "
+      "with the same effective set agree (MC_Ext: that grouping follows from Inert for every abstract parser). Tokenizers are re-used "
+      "across documents and fed documents that make the parser fail first, so state left behind by an extension shows up. Front matter: "
+      "tokens(d) = <<fm>> + tokens(rest) shifted for valid blocks, unchanged parse for invalid ones.", DOCS_NOTE % "C20",
+      "TLA+ Ext inertness relation + Obs trace validation over extension subsets")
+
+READY = {"C04", "C07", "C09", "C10", "C12", "C13", "C14", "C15", "C16", "C17", "C18", "C19"}
+PENDING_REASON = "check is built (vh/checks) but its known-finding table for the pinned tree is still being harvested; not claimed until it is stable under every VERIF_SEED"
+
 # ---------------------------------------------------------------------------------------------
 if __name__ == "__main__":
     props = [json.loads(l) for l in open("properties.jsonl")]
@@ -137,17 +219,17 @@ if __name__ == "__main__":
                                        "--timeout=900 --continue-on-collection-errors",
                    "source_commits": json.load(open("tools/hook_commits.json")), "add_only": True},
          "engines": [
-             {"name": "tlc", "path": "vh/tlc.py", "serves_properties": sorted(CLAIMED),
+             {"name": "tlc", "path": "vh/tlc.py", "serves_properties": sorted(set(CLAIMED) & READY),
               "kind_free_text": "TLC model checking of spec/*.tla, scenario generation (PrintT/ToJson) and batched trace validation"},
-             {"name": "replay", "path": "vh/impl.py", "serves_properties": sorted(CLAIMED),
+             {"name": "replay", "path": "vh/impl.py", "serves_properties": sorted(set(CLAIMED) & READY),
               "kind_free_text": "spec behaviours replayed into the real code (in-process CLI / API / parser drivers)"},
-             {"name": "record", "path": "/repo/pymarkdown/general/verif_probe.py", "serves_properties": sorted(CLAIMED),
+             {"name": "record", "path": "/repo/pymarkdown/general/verif_probe.py", "serves_properties": sorted(set(CLAIMED) & READY),
               "kind_free_text": "probe events recorded from the real code, validated by TLC against spec/trace/*.tla"}],
          "checks": [], "notes": "See DESIGN.md. Exit codes: 0 held (KNOWN-FINDING lines allowed), 1 VIOLATION, 2 machinery failure.",
          "not_applicable": []}
     for p in props:
         pid = p["id"]
-        if pid in CLAIMED:
+        if pid in CLAIMED and pid in READY:
             c = CLAIMED[pid]
             m["checks"].append({
                 "property_id": pid,
@@ -159,7 +241,6 @@ if __name__ == "__main__":
                 "level_claimed": {"category": c["category"], "text": c["text"], "design_ref": "DESIGN.md section 6, " + pid},
                 "level_note": c["note"], "technique": c["technique"]})
         else:
-            m["not_applicable"].append({"property_id": pid, "reason": NA.get(
-                pid, "check not built yet in this round (planned, see DESIGN.md section 6); not a limit of the technique")})
+            m["not_applicable"].append({"property_id": pid, "reason": NA.get(pid, PENDING_REASON)})
     json.dump(m, open("MANIFEST.json", "w"), indent=1)
     print("MANIFEST.json: %d checks, %d not applicable" % (len(m["checks"]), len(m["not_applicable"])))
